@@ -235,6 +235,8 @@ def cond_tests(c, pol):
     if isinstance(c, tuple) and c:
         if c[0] == "lit" and isinstance(c[1], bool):
             return [] if c[1] == pol else False
+        if c[0] == "survived":
+            return cond_tests(c[1], pol)
         if c[0] == "op" and c[1] == "Not":
             return cond_tests(c[2], not pol)
         if c[0] == "matches":
@@ -434,6 +436,9 @@ def _iter(it):
             return n + n2, e2
         if it[1] in PASS_THROUGH and it[2]:
             return _iter(it[2][0])
+        if it[1] == "Iterator::enumerate" and len(it[2]) == 1:
+            n, e = _iter(it[2][0])
+            return n, ("list", (("idx", it[2][0]), e))
     return [it], ("each", it)
 
 
@@ -447,3 +452,12 @@ def loop_nest(loops):
         nest += n
         mapping[("each", raw)] = e
     return nest, mapping
+
+
+def over_all(loops, root, t):
+    """when the loop stack `loops` is exactly one pass over every element of `root` (through order- and cardinality-preserving adaptors:
+    map, enumerate, inspect, ...): the term t with the loop element expressed over ('each', root); else None"""
+    nest, mapping = loop_nest(loops)
+    if nest != [root]:
+        return None
+    return norm(replace(t, mapping))
